@@ -247,6 +247,10 @@ def specs(tier, concrete_heavy=False):
     # constants operators
     a(('Transformation.__neg__', lambda: ((lambda t: -t), (tset('a_', rates=True, ref=datetime.date(2010, 1, 1)),))))
     a(('Transformation.__add__', lambda: ((lambda t, d: t + d), (tset('a_', rates=True, ref=datetime.date(2010, 1, 1)), ep()))))
+    # a static 7-parameter set (reference epoch 0) shifted to a date, and conform14 on it: whatever the outcome (the pinned code raises a
+    # TypeError for date - int), the set handed in must be left as it was
+    a(('Transformation.__add__[static set, ref_epoch 0]', lambda: ((lambda t, d: t + d), (tset('s_', ref=0), ep()))))
+    a(('transform.conform14[static set, ref_epoch 0]', lambda: (tr.conform14, xyz() + (ep(), tset('s_', ref=0)))))
     a(('constants.iers2trans', lambda: (gc.iers2trans, ('X', 'Y', datetime.date(2000, 1, 1)) + tuple(R('p%d' % i, -100, 100) for i in range(14)))))
     # transform: sequences with two same-labelled sets, with and without covariance, shipped constants
     a(('transform.conform7[two sets, vcv]', lambda: ((lambda x, y, z, t1, t2, q: (tr.conform7(x, y, z, t1, q), tr.conform7(x, y, z, t2, q), tr.conform7(x, y, z, t1))),
@@ -300,12 +304,18 @@ def check_spec(name, mk, tier, seed):
 
     def run():
         fn, args = mk()
+        def call():
+            # an exception is an outcome like any other: what the call left behind is still compared
+            try:
+                return fn(*args)
+            except Exception as ex:  # noqa
+                return ('raised', type(ex).__name__)
         before_args = _snap_val(list(args))
         st0 = full_state(mods)
-        r1 = fn(*args)
+        r1 = call()
         mid_args = _snap_val(list(args))
         st1 = full_state(mods)
-        r2 = fn(*args)
+        r2 = call()
         st2 = full_state(mods)
         return r1, r2, before_args == mid_args, diff_state(st0, st1) + diff_state(st1, st2)
     out = []
